@@ -9,7 +9,7 @@ RULE = ('pairs of compatible configurations (IKE ENCR key length x INTEG x PRF x
         'derives from the wire (nonces, KE, SPIs) and the tapped DH private values: direction keys (initiator-to-responder keys first), '
         'algorithms, key lengths, source address, mode, selectors; (2) every IKE keyring equals the reference and is used in the right '
         'direction; (3) after every completed negotiation both model SADs hold the same (daddr,proto,SPI) keys and each pair is equal '
-        'field by field except lifetimes. A second family runs CROSSING exchanges (both sides trigger new/rekey CHILD_SAs, with PFS, and IKE rekeys while the peer\'s request is in flight, random delivery order) under the same monitors. distinct = (configuration signature, negotiation kind).')
+        'field by field except lifetimes. A second family runs CROSSING exchanges (both sides trigger new/rekey CHILD_SAs, with PFS, and IKE rekeys while the peer\'s request is in flight, random delivery order) under the same monitors; a third family completes its negotiations under loss / duplication / retransmission, a fourth runs a hub daemon with two or three peers at once. distinct = (configuration signature, negotiation kind).')
 ASSUMPTIONS = ['honest peers, FIFO lossless delivery (losses are C09/C10/C13 territory)',
                'lifetimes are excluded from the mirror comparison (each side adds its own jitter by design)',
                'reference: vf/ref/ikecrypto.py + groups.py (hashlib/hmac/python ints); DH private values are read from the repository objects, the shared secret is recomputed']
@@ -82,11 +82,74 @@ def run_crossing(ck, w, seed):
         ck.sample({'crossing_actions': sim.case['actions'][:30], 'derivations': [list(map(str, e)) for e in sh.events][:8]})
 
 
+
+def run_lossy(ck, w, seed):
+    """Negotiations that only complete after loss, duplication and retransmission still install the RFC-derived keys on both sides."""
+    rng = ck.rng('lossy', w)
+    child = {'encr': [rng.choice(histories.ENCR)], 'integ': [rng.choice(histories.INTEG)], 'dh': [rng.choice(['19', '14'])] if w % 2 else []}
+    sc = walk.Scenario(seed + w, [], dict(child_a=child, child_b=child, v6=bool(w % 5 == 0), mode='tunnel' if w % 3 == 0 else 'transport'), handshake=False)
+    sim = sc.sim
+    sim.case.update({'family': 'lossy', 'w': w})
+    km = shadow.KeyMonitor(ck, prefix='lossy:')
+    km.attach(sim, S.W.dh_log)
+    sim.acquire(sc.a, 0)
+    walk.random_walk(sc, rng, rng.randrange(10, 26), lossy=True, p_trigger=0.25, p_tick=0.15)
+    sc.settle()
+    shadow.mirror_check(ck, sim, sc.a, sc.b, prefix='lossy:', require_equal_sets=False)
+    ck.count('lossy.walks')
+    ck.nontrivial(('lossy', repr(sim.case['actions'])))
+
+
+def run_hub(ck, w, seed):
+    """A hub with two or three peers: concurrent IKE_SAs of one daemon must not influence one another's keys (shared configuration objects, SPI lookups...)."""
+    rng = ck.rng('hub', w)
+    sim, hub, peers = S.make_star(seed + w, peers=2 + w % 2, v6=bool(w % 4 == 0))
+    sim.case = {'family': 'hub', 'w': w, 'actions': []}
+    km = shadow.KeyMonitor(ck, prefix='hub:')
+    km.attach(sim, S.W.dh_log)
+    eps = [hub] + peers
+    for _ in range(rng.randrange(12, 40)):
+        r = rng.random()
+        if r < 0.4 or not sim.net:
+            ep = rng.choice(eps)
+            kind = rng.choice(['acquire', 'acquire', 'rekey', 'expire_soft'])
+            sim.case['actions'].append((ep.name, kind))
+            conns = list(ep.conf.ike_configurations.values())
+            if kind == 'acquire':
+                sim.acquire(ep, rng.choice(conns), dport=rng.randrange(1024, 60000) if ep is not hub else 0, sport=rng.randrange(1024, 60000) if ep is hub else 0)
+            else:
+                cands = [x for x in ep.ctl.ike_sas if x.state.name == 'ESTABLISHED']
+                if not cands:
+                    continue
+                sa = rng.choice(cands)
+                if kind == 'rekey':
+                    sa.rekey_ike_sa_at = sim.clock.t - 1
+                    sa.delete_ike_sa_at = sim.clock.t + 29
+                    ep.step('tick')
+                elif sa.child_sas:
+                    c = rng.choice(sa.child_sas)
+                    sim.expire(ep, bytes(c.inbound_spi), False, daddr=str(sa.my_addr))
+        else:
+            sim.deliver(rng.randrange(len(sim.net)))
+    sim.drain()
+    sim.settle()
+    for p_ in peers:
+        shadow.mirror_check(ck, sim, hub, p_, prefix='hub:', require_equal_sets=False)
+    ck.count('hub.walks')
+    ck.nontrivial(('hub', repr(sim.case['actions'])))
+
+
 def run(ck):
     nx = 160 if not ck.thorough() else 20000
     for w in range(nx):
         if ck.mine(w):
             run_crossing(ck, w, ck.seed * 1000003 + 4409)
+    for w in range(60 if not ck.thorough() else 6000):
+        if ck.mine(w):
+            run_lossy(ck, w, ck.seed * 1000003 + 5501)
+    for w in range(40 if not ck.thorough() else 4000):
+        if ck.mine(w):
+            run_hub(ck, w, ck.seed * 1000003 + 6607)
     n = 96 if not ck.thorough() else 6000
     dh = histories.DH_QUICK if not ck.thorough() else histories.DH_ALL
     base = ck.seed * 1000003 + 11
@@ -110,6 +173,8 @@ def verdict(ck):
     ck.floor('PFS child derivations', sum(v for k, v in c.items() if k.startswith('shadow.child.derived') and '.pfs.' in k), 40)
     ck.floor('AH derivations', sum(v for k, v in c.items() if k.startswith('shadow.child.derived') and k.endswith('.ah')), 20)
     ck.floor('crossing-exchange walks', c['crossing.walks'], 100)
+    ck.floor('lossy walks', c['lossy.walks'], 40)
+    ck.floor('hub walks (several IKE_SAs per daemon)', c['hub.walks'], 25)
     dims = ck.sets['conf.dims']
     for want in ('tunnel', 'transport', 'v6', 'rsa', 'ah'):
         ck.floor(f'configurations with {want}', sum(1 for d in dims if want in d), 1)
